@@ -2,10 +2,10 @@
 from __future__ import annotations
 
 import ast
-from typing import Iterator, Set, Tuple
+from typing import Dict, Iterator, List, Optional, Set, Tuple
 
 from .astutil import stmts_in_order
-from .model import FuncInfo, norm, walk_no_nested
+from .model import FuncInfo, is_self_attr, norm, walk_no_nested
 
 NUMERIC_HINTS = ('int', 'float', 'str', 'complex', 'Number')
 
@@ -2229,3 +2229,306 @@ def check_constructor_uses_setter(ctx, rule: str, module_paths, floor: int = 0) 
                               'built through the constructor skips what the override does (validation, reshaping, derived state)'
                               % (norm(node)[:50], setter, ', '.join(over)), c.module.path, node.lineno, operand='bypass:' + attr)
     return n
+
+
+# ---------------------------------------------------------------------------------------------------------------
+def complex_square_sums(fn: FuncInfo):
+    """(node): `np.sum(X ** 2)` / `np.sum(X * X)` / `np.trace(X.dot(X.T))`-free spelling of an ENERGY without a modulus: for a complex X
+    the square is not |X|^2 (it can even be negative or complex); `np.abs(X) ** 2`, `X * X.conj()` or `np.linalg.norm(X) ** 2` are."""
+    REAL_MAKERS = {'abs', 'absolute', 'real', 'imag', 'sin', 'cos', 'norm', 'angle', 'log', 'log2', 'log10', 'sqrt', 'arange', 'linspace', 'count_nonzero'}
+    for n in walk_no_nested(fn.node):
+        if not (isinstance(n, ast.Call) and norm(n.func) in ('np.sum', 'sum', 'numpy.sum') and n.args):
+            continue
+        a0 = n.args[0]
+        base = None
+        if isinstance(a0, ast.BinOp) and isinstance(a0.op, ast.Pow) and isinstance(a0.right, ast.Constant) and a0.right.value == 2:
+            base = a0.left
+        elif isinstance(a0, ast.BinOp) and isinstance(a0.op, ast.Mult) and norm(a0.left) == norm(a0.right):
+            base = a0.left
+        if base is None:
+            continue
+        if any(isinstance(x, ast.Call) and norm(x.func).split('.')[-1] in REAL_MAKERS for x in ast.walk(base)):
+            continue
+        if any(isinstance(x, ast.Attribute) and x.attr in ('real', 'imag') for x in ast.walk(base)):
+            continue
+        yield n, base
+
+
+def check_energy_uses_modulus(ctx, rule: str, module_paths, floor: int = 0) -> int:
+    ctx.rule(rule, 'the energy of a (complex) array is never computed as np.sum(X ** 2) / np.sum(X * X) without a modulus or a conjugate', floor=floor)
+    M = ctx.model
+    n = 0
+    for path in module_paths:
+        mod = M.module(path)
+        fns = [f for c in mod.classes.values() for f in list(c.methods.values()) + list(c.getters.values()) + list(c.setters.values())]
+        fns += list(mod.functions.values())
+        for fn in fns:
+            construct = fn.qualname
+            ctx.instance(rule, construct)
+            n += 1
+            hits = list(complex_square_sums(fn))
+            ctx.obligation(rule, construct, not hits, {'plain_squares': [norm(h[0])[:50] for h in hits]} if hits else None,
+                           nontrivial=any(isinstance(x, ast.Call) and norm(x.func) in ('np.sum', 'np.linalg.norm') for x in ast.walk(fn.node)))
+            for node, base in hits[:1]:
+                ctx.violation(rule, construct, '`%s` sums the plain squares of `%s`: for complex entries that is not the energy sum(|x|^2) (use np.abs(x) ** 2, '
+                              'x * x.conj() or np.linalg.norm)' % (norm(node)[:60], norm(base)[:30]), fn.path, node.lineno, operand='plain-square')
+    return n
+
+
+# ---------------------------------------------------------------------------------------------------------------
+def replacing_writers(model) -> Dict[str, 'FuncInfo']:
+    """method name -> method, for repo methods that store a ONE-element list (or their parameter itself) under a key of a self container
+    whose class also has a sibling that `.append`s to the same container's entries: calling the first per item of a group keeps only the last."""
+    out: Dict[str, FuncInfo] = {}
+    for cls in model.classes.values():
+        appenders: Set[str] = set()
+        writers: Dict[str, List[FuncInfo]] = {}
+        for m in cls.methods.values():
+            for n in walk_no_nested(m.node):
+                if isinstance(n, ast.Call) and isinstance(n.func, ast.Attribute) and n.func.attr in ('append', 'extend') \
+                        and isinstance(n.func.value, ast.Subscript) and is_self_attr(n.func.value.value, m.self_name or 'self'):
+                    appenders.add(is_self_attr(n.func.value.value, m.self_name or 'self'))
+            for st in m.node.body:
+                if isinstance(st, ast.Assign) and len(st.targets) == 1 and isinstance(st.targets[0], ast.Subscript) \
+                        and is_self_attr(st.targets[0].value, m.self_name or 'self') \
+                        and isinstance(st.value, ast.List) and len(st.value.elts) == 1 and isinstance(st.value.elts[0], ast.Name) \
+                        and st.value.elts[0].id in m.params:
+                    writers.setdefault(is_self_attr(st.targets[0].value, m.self_name or 'self'), []).append(m)
+        for attr, ms in writers.items():
+            if attr in appenders:
+                for m in ms:
+                    out[m.name] = m
+    return out
+
+
+def grouped_items_through_replacing_writer(model, fn: FuncInfo):
+    """(call, method, depth): calls, inside `fn` (nested helpers and comprehensions included), of a replacing writer at loop depth >= 2 --
+    the inner loop walks the items of ONE group, so all but the last are dropped."""
+    rw = replacing_writers(model)
+
+    def visit(n: ast.AST, depth: int):
+        if isinstance(n, (ast.For, ast.While)):
+            for ch in n.body + n.orelse:
+                yield from visit(ch, depth + 1)
+            return
+        if isinstance(n, (ast.ListComp, ast.SetComp, ast.GeneratorExp, ast.DictComp)):
+            d = depth + len(n.generators)
+            for ch in ([n.elt] if not isinstance(n, ast.DictComp) else [n.key, n.value]):
+                yield from visit(ch, d)
+            return
+        if isinstance(n, ast.Call) and isinstance(n.func, ast.Attribute) and n.func.attr in rw and depth >= 2:
+            yield n, rw[n.func.attr], depth
+        for ch in ast.iter_child_nodes(n):
+            yield from visit(ch, depth)
+    for st in fn.node.body:
+        yield from visit(st, 0)
+
+
+# ---------------------------------------------------------------------------------------------------------------
+NOCOPY_CONVERTERS = {'np.asarray', 'np.asanyarray', 'np.atleast_1d', 'np.atleast_2d', 'np.ravel', 'np.reshape', 'np.squeeze',
+                     'np.ascontiguousarray', 'numpy.asarray'}
+
+
+def validated_arrays_stored_by_reference(fn: FuncInfo):
+    """(store, parameter): a setter / public method VALIDATES an array-like argument (a raise guarded by `len(p)`, `np.all(p ..)`,
+    `np.any(p ..)`, `p.shape` ...) and then stores the caller's own object (the parameter, or a no-copy conversion of it such as
+    np.asarray) in an attribute: a later in-place write by the caller changes the validated state behind the object's back."""
+    sn = fn.self_name
+    if not sn:
+        return
+    params = [p for p in fn.params if p not in ('self', 'cls')]
+    alias = {p: p for p in params}            # local -> parameter whose OBJECT it may be
+    validated: Set[str] = set()
+    for st in stmts_in_order(fn):
+        if isinstance(st, ast.If) and any(isinstance(x, ast.Raise) for b in (st.body, st.orelse) for s in b for x in ast.walk(s)):
+            for c in ast.walk(st.test):
+                if isinstance(c, ast.Call) and norm(c.func) in ('len', 'np.all', 'np.any', 'all', 'any', 'np.size', 'np.shape'):
+                    for x in ast.walk(c):
+                        if isinstance(x, ast.Name) and x.id in alias:
+                            validated.add(alias[x.id])
+                if isinstance(c, ast.Attribute) and c.attr in ('shape', 'size', 'ndim') and isinstance(c.value, ast.Name) and c.value.id in alias:
+                    validated.add(alias[c.value.id])
+        if isinstance(st, ast.Assign) and len(st.targets) == 1:
+            t, v = st.targets[0], st.value
+            src = None
+            if isinstance(v, ast.Name):
+                src = v.id
+            elif isinstance(v, ast.Call) and norm(v.func) in NOCOPY_CONVERTERS and v.args and isinstance(v.args[0], ast.Name):
+                src = v.args[0].id
+            if isinstance(t, ast.Name):
+                if src in alias:
+                    alias[t.id] = alias[src]
+                else:
+                    alias.pop(t.id, None)
+            elif is_self_attr(t, sn) and src in alias and alias[src] in validated:
+                yield st, alias[src]
+
+
+def check_validated_arrays_copied(ctx, rule: str, module_paths, floor: int = 0) -> int:
+    ctx.rule(rule, 'a setter / public method that validates an array-like argument (raise guarded by len / np.all / np.any / shape) stores a '
+                   'private copy, never the caller\'s own object or a no-copy conversion of it (np.asarray)', floor=floor)
+    M = ctx.model
+    n = 0
+    for path in module_paths:
+        mod = M.module(path)
+        for cls in mod.classes.values():
+            for fn in list(cls.methods.values()) + list(cls.setters.values()):
+                if fn.name.startswith('_') and fn.name != '__init__':
+                    continue
+                if not any(isinstance(x, ast.Raise) for x in walk_no_nested(fn.node)):
+                    continue
+                construct = fn.qualname
+                ctx.instance(rule, construct)
+                n += 1
+                hits = list(validated_arrays_stored_by_reference(fn))
+                ctx.obligation(rule, construct, not hits, {'stores': [norm(h[0])[:60] for h in hits]} if hits else None)
+                for st, p in hits[:1]:
+                    ctx.violation(rule, construct, '`%s` stores the caller\'s own array `%s` (validated just before): when the caller re-uses or '
+                                  'modifies that buffer the object\'s state changes without validation and without the derived quantities being '
+                                  'recomputed (store np.array(%s))' % (norm(st)[:60], p, p), fn.path, st.lineno, operand='by-reference:' + p)
+    return n
+
+
+# ---------------------------------------------------------------------------------------------------------------
+NUMERIC_ERRORS = {'ValueError', 'ZeroDivisionError', 'FloatingPointError', 'OverflowError', 'ArithmeticError', 'Exception', 'BaseException',
+                  'TypeError', 'np.linalg.LinAlgError', 'LinAlgError', 'RuntimeWarning', 'Warning', 'IndexError'}
+
+
+def defaults_substituted_on_error(fn: FuncInfo):
+    """(handler, what): an `except` clause for an arithmetic / domain error whose body neither re-raises nor calls anything but binds a
+    CONSTANT to a name the try body computes, or returns a constant: the failed evaluation of a formula is silently replaced by a made-up value."""
+    def is_const(e):
+        return isinstance(e, ast.Constant) or (isinstance(e, ast.UnaryOp) and isinstance(e.operand, ast.Constant)) \
+            or (isinstance(e, ast.Attribute) and norm(e) in ('np.nan', 'np.inf', 'math.inf', 'math.nan')) \
+            or (isinstance(e, ast.Call) and norm(e.func) in ('float', 'int', 'np.float64', 'np.zeros', 'np.ones', 'np.zeros_like', 'np.ones_like')
+                and all(is_const(a) or isinstance(a, ast.Name) for a in e.args))
+    for n in walk_no_nested(fn.node):
+        if not isinstance(n, ast.Try):
+            continue
+        computed = {t.id for s in n.body for x in ast.walk(s) if isinstance(x, (ast.Assign, ast.AugAssign, ast.AnnAssign))
+                    for t in (x.targets if isinstance(x, ast.Assign) else [x.target]) if isinstance(t, ast.Name)}
+        returns_value = any(isinstance(x, ast.Return) and x.value is not None for s in n.body for x in ast.walk(s))
+        for h in n.handlers:
+            names = [norm(t) for t in (h.type.elts if isinstance(h.type, ast.Tuple) else [h.type])] if h.type is not None else ['BaseException']
+            if not any(x in NUMERIC_ERRORS for x in names):
+                continue
+            if any(isinstance(x, ast.Raise) for s in h.body for x in ast.walk(s)):
+                continue
+            for s in h.body:
+                if isinstance(s, ast.Assign) and len(s.targets) == 1 and isinstance(s.targets[0], ast.Name) and s.targets[0].id in computed \
+                        and is_const(s.value):
+                    yield h, '%s = %s' % (s.targets[0].id, norm(s.value))
+                if isinstance(s, ast.Return) and returns_value and (s.value is None or is_const(s.value)):
+                    yield h, norm(s)
+
+
+def check_no_defaults_on_error(ctx, rule: str, module_paths, floor: int = 0) -> int:
+    ctx.rule(rule, 'no arithmetic / domain error of a formula is swallowed into a made-up constant (except ValueError: x = 0.0): inputs outside '
+                   'the domain keep raising (or propagate inf/nan as numpy does), they never yield an ordinary-looking value', floor=floor)
+    M = ctx.model
+    n = 0
+    for path in module_paths:
+        mod = M.module(path)
+        fns = [f for c in mod.classes.values() for f in list(c.methods.values()) + list(c.getters.values()) + list(c.setters.values())]
+        fns += list(mod.functions.values())
+        for fn in fns:
+            ctx.instance(rule, fn.qualname)
+            n += 1
+            hits = list(defaults_substituted_on_error(fn))
+            ctx.obligation(rule, fn.qualname, not hits, {'handlers': [h[1] for h in hits]} if hits else None,
+                           nontrivial=any(isinstance(x, ast.Try) for x in walk_no_nested(fn.node)))
+            for h, what in hits[:1]:
+                ctx.violation(rule, fn.qualname, 'the handler `except %s` replaces the failed evaluation by `%s`: an input outside the domain of the '
+                              'formula now yields an ordinary-looking value instead of an error'
+                              % (norm(h.type) if h.type is not None else '', what), fn.path, h.lineno, operand='default-on-error')
+    return n
+
+
+# ---------------------------------------------------------------------------------------------------------------
+def svd_row_scalings_by_broadcast(fn: FuncInfo):
+    """(node, S, V_H): with `U, S, V_H = svd(..)`, the elementwise product `S * V_H` (or slices of the two, without a new axis on S)
+    broadcasts the singular values along the LAST axis, i.e. scales the COLUMNS of V_H; diag(S) @ V_H scales its ROWS.  The two agree only by
+    accident of shapes (and only when V_H is square): `S[:, None] * V_H`, `np.diag(S) @ V_H` or `(U * S) @ V_H` are the right spellings."""
+    triples = []
+    for n in walk_no_nested(fn.node):
+        if isinstance(n, ast.Assign) and len(n.targets) == 1 and isinstance(n.targets[0], (ast.Tuple, ast.List)) and len(n.targets[0].elts) == 3 \
+                and isinstance(n.value, ast.Call) and norm(n.value.func).split('.')[-1] == 'svd' \
+                and all(isinstance(e, ast.Name) for e in n.targets[0].elts):
+            triples.append(tuple(e.id for e in n.targets[0].elts))
+    if not triples:
+        return
+
+    def plain_root(e, allow_newaxis: bool):
+        """name at the root of a pure subscript chain (None if an index adds an axis and that is not allowed, or anything else intervenes)"""
+        while isinstance(e, ast.Subscript):
+            idx = e.slice.elts if isinstance(e.slice, ast.Tuple) else [e.slice]
+            if not allow_newaxis and any((isinstance(i, ast.Constant) and i.value is None) or norm(i) in ('np.newaxis', 'numpy.newaxis') for i in idx):
+                return None
+            e = e.value
+        return e.id if isinstance(e, ast.Name) else None
+    for n in walk_no_nested(fn.node):
+        if isinstance(n, ast.BinOp) and isinstance(n.op, ast.Mult):
+            for a, b in ((n.left, n.right), (n.right, n.left)):
+                for (u, s_, v) in triples:
+                    if plain_root(a, False) == s_ and plain_root(b, True) == v:
+                        yield n, s_, v
+
+
+def check_svd_scalings(ctx, rule: str, module_paths, floor: int = 0) -> int:
+    ctx.rule(rule, 'singular values scale the ROWS of V^H (diag(S) V^H): they are never multiplied elementwise with V^H without a new axis, '
+                   'which would scale its columns', floor=floor)
+    M = ctx.model
+    n = 0
+    for path in module_paths:
+        mod = M.module(path)
+        fns = [f for c in mod.classes.values() for f in list(c.methods.values()) + list(c.getters.values()) + list(c.setters.values())]
+        fns += list(mod.functions.values())
+        for fn in fns:
+            if not any(isinstance(x, ast.Call) and norm(x.func).split('.')[-1] == 'svd' for x in walk_no_nested(fn.node)):
+                continue
+            ctx.instance(rule, fn.qualname)
+            n += 1
+            hits = list(svd_row_scalings_by_broadcast(fn))
+            ctx.obligation(rule, fn.qualname, not hits, {'products': [norm(h[0])[:60] for h in hits]} if hits else None)
+            for node, s_, v in hits[:1]:
+                ctx.violation(rule, fn.qualname, '`%s` multiplies the singular values `%s` elementwise with `%s`: broadcasting aligns them with the '
+                              'last axis, so the COLUMNS of %s are scaled, not its rows as in diag(%s) %s' % (norm(node)[:60], s_, v, v, s_, v),
+                              fn.path, node.lineno, operand='svd-broadcast')
+    return n
+
+
+# ---------------------------------------------------------------------------------------------------------------
+def unsigned_wraps(fn: FuncInfo, params):
+    """(node, param): `k - E` / `-E` where E is built from a raw input array `param` by dtype-preserving integer arithmetic only (*, +,
+    ** with constants): for an UNSIGNED input dtype (bits and symbol indexes are commonly stored as np.uint8) the subtraction wraps
+    (1 - 2 * uint8(1) == 255).  A conversion to a signed / float type anywhere between the name and the subtraction (astype, np.asarray
+    with dtype, int(), float(), true division, a float constant factor) makes it safe."""
+    rebound = {t.id for n in walk_no_nested(fn.node) if isinstance(n, (ast.Assign, ast.AugAssign, ast.AnnAssign))
+               for t in (n.targets if isinstance(n, ast.Assign) else [n.target]) if isinstance(t, ast.Name)}
+    raw = {p for p in params if p not in rebound}
+
+    def raw_in(e) -> Optional[str]:
+        """raw parameter reaching the value of e through dtype-preserving integer arithmetic, or None"""
+        if isinstance(e, ast.Name):
+            return e.id if e.id in raw else None
+        if isinstance(e, ast.BinOp) and isinstance(e.op, (ast.Mult, ast.Add, ast.Sub, ast.Pow, ast.FloorDiv, ast.Mod)):
+            for side in (e.left, e.right):
+                if isinstance(side, ast.Constant) and isinstance(side.value, float):
+                    return None
+            return raw_in(e.left) or raw_in(e.right)
+        if isinstance(e, ast.UnaryOp):
+            return raw_in(e.operand)
+        if isinstance(e, ast.Subscript):
+            return raw_in(e.value)
+        return None
+    for n in walk_no_nested(fn.node):
+        if isinstance(n, ast.BinOp) and isinstance(n.op, ast.Sub):
+            p = raw_in(n.right)
+            if p is None and raw_in(n.left) and isinstance(n.right, ast.Constant) and type(n.right.value) is int and n.right.value > 0:
+                p = raw_in(n.left)            # x - 1 wraps for x == 0
+            if p:
+                yield n, p
+        elif isinstance(n, ast.UnaryOp) and isinstance(n.op, ast.USub):
+            p = raw_in(n.operand)
+            if p:
+                yield n, p
